@@ -226,6 +226,21 @@ def run_api(ctx, L, icu, idx, ntriples):
                 want = [k2] if eq else sorted([k1, k2])
                 if sorted(keys) != sorted(want):
                     ctx.violation('match:table:keys:%s' % ('spelling' if eq else 'count'), 'table keys after setting %s then %s: %r, expected %r' % (cps(k1), cps(k2), [cps(k) for k in keys], [cps(k) for k in want]), info)
+                # the spelling travels with the table: a copy (explicit, or made by storing the table in a list)
+                # enumerates and matches its keys exactly as the original does
+                rc4, cl = L.value_clone(tb)
+                rc5, lst = L.value_create(KIND_LIST)
+                L.call('cif_value_insert_element_at', lst, 0, tb)
+                rc6, inner = L.list_get(lst, 0)
+                for what, cp in (('clone', cl), ('copy stored in a list', inner)):
+                    rck, ckeys = L.table_keys(cp)
+                    if sorted(ckeys) != sorted(want):
+                        ctx.violation('match:table:keys:copy-spelling', 'keys of a %s of the table: %r, the table\'s own %r' % (what, [cps(k) for k in ckeys], [cps(k) for k in want]), info)
+                    rcg, e = L.table_get(cp, k1)
+                    if rcg != CIF_OK:
+                        ctx.violation('match:table:lookup:copy-missed', 'key %s is not found in a %s of the table (rc %d)' % (cps(k1), what, rcg), info)
+                L.value_free(cl)
+                L.value_free(lst)
                 L.value_free(a)
                 L.value_free(b2)
                 L.value_free(tb)
